@@ -326,6 +326,8 @@ class C04(Oracle):
         hcap = min(ag["kw"].get("h_max", 100), n_budget)
         drawn = self.vroom_drawn
         if drawn is None:
+            if self.lenient:
+                return
             raise HarnessError("VROOM: no np.random.choice outcome recorded for this round")
         if not changed:
             ctx.fail("C04", "credit-set", "VROOM: no cell recorded the reward")
@@ -378,11 +380,17 @@ class C04(Oracle):
             nl = part.get_node_list()
             n_budget = ctx.top["kw"].get("n", 100)
             sd = int(math.floor(math.log2(n_budget)))
-            cells = [x for h in range(1, sd + 1) for x in nl[h]]
+            cells = [x for h in range(1, sd + 1) if h < len(nl) for x in nl[h]]
             if ch is None or ch["n"] != len(cells):
-                raise HarnessError("VROOM: np.random.choice was not called over the ranked cells")
-            self.vroom_drawn = cells[ch["index"]]
-            ctx.vroom = {"drawn": self.vroom_drawn, "p": ch["p"], "cells": cells}
+                # the draw was not over the cells of depths 1..floor(log2 n): the designated cell cannot be identified
+                self.vroom_drawn = None
+                ctx.vroom = {"drawn": None, "p": ch["p"] if ch else None, "cells": cells,
+                             "error": "np.random.choice over %s items, depths 1..%d hold %d cells" % (ch["n"] if ch else None, sd, len(cells))}
+                if not self.lenient:
+                    ctx.fail("C04", "credit-set", "VROOM: the drawn cell cannot be identified (%s)" % ctx.vroom["error"])
+            else:
+                self.vroom_drawn = cells[ch["index"]]
+                ctx.vroom = {"drawn": self.vroom_drawn, "p": ch["p"], "cells": cells}
         if name in WRAPPERS and not self.lenient:
             pulls = [e for e in self.top_pull_events if e[0] == "pull"]
             if name == "POO":
